@@ -2,6 +2,7 @@ package rules
 
 import (
 	"fmt"
+	"sort"
 	"strings"
 
 	"golang.org/x/tools/go/ssa"
@@ -21,13 +22,21 @@ import (
 // that reads Config.SummarizeOnDemand without UnsafeIgnoreNonSummarized is a
 // violation.
 func c05build(c *core.Ctx, r *core.Report) {
-	r.Explain("R05.build: every call that builds a missing summary in the taint traversal (helpers inlined) is control dependent - in its function and at the call sites leading to it - on no condition that reads Config.SummarizeOnDemand without UnsafeIgnoreNonSummarized.")
-	root := c.Func("analysis/taint", "Visitor.Visit")
+	buildRule(c, r, "R05.build", "analysis/taint", "Visitor.Visit", 4,
+		"in eager mode with a pkg-filter the summary of a filtered-out caller stays unbuilt, the traversal cannot return into it and the (source, sink) pairs differ between configurations")
+}
+
+// buildRule is R05.build for the traversal pkgRel.fnName (also R03.build on the backward visitor).
+func buildRule(c *core.Ctx, r *core.Report, rule, pkgRel, fnName string, floor int, consequence string, aggregate ...bool) {
+	allBad := map[string]bool{}
+	gated := 0
+	r.Explain(rule + ": every call that builds a missing summary in the traversal (helpers inlined) is control dependent - in its function and at the call sites leading to it - on no condition that reads Config.SummarizeOnDemand without UnsafeIgnoreNonSummarized.")
+	root := c.Func(pkgRel, fnName)
 	if root == nil {
-		r.Fail("infra.anchor-unresolved", "R05.build|analysis/taint.Visitor.Visit", "", "not found")
+		r.Fail("infra.anchor-unresolved", rule+"|"+pkgRel+"."+fnName, "", "not found")
 		return
 	}
-	r.Analysed("analysis/taint.Visitor.Visit")
+	r.Analysed(pkgRel + "." + fnName)
 	g := c.RepoGraph()
 	builds := func(fn *ssa.Function) bool {
 		if fn == nil {
@@ -36,7 +45,7 @@ func c05build(c *core.Ctx, r *core.Report) {
 		if fn.Name() == "RunIntraProcedural" || fn.Name() == "BuildSummary" {
 			return true
 		}
-		if c.FuncPkgRel(fn) != "analysis/taint" {
+		if c.FuncPkgRel(fn) != pkgRel {
 			return false
 		}
 		for f := range g.Cone(false, fn) {
@@ -61,7 +70,7 @@ func c05build(c *core.Ctx, r *core.Report) {
 		if sc.Name() == "onDemandIntraProcedural" {
 			return true
 		}
-		return c.FuncPkgRel(sc) != "analysis/taint" && call.Parent().Name() != "onDemandIntraProcedural"
+		return c.FuncPkgRel(sc) != pkgRel && call.Parent().Name() != "onDemandIntraProcedural"
 	}) {
 		n++
 		call := ii.Ins.(*ssa.Call)
@@ -80,13 +89,32 @@ func c05build(c *core.Ctx, r *core.Report) {
 				bad = append(bad, c.Pos(pos))
 			}
 		}
+		if len(aggregate) > 0 && aggregate[0] {
+			if len(bad) > 0 {
+				gated++
+			}
+			for _, b := range bad {
+				allBad[b] = true
+			}
+			continue
+		}
 		key := fmt.Sprintf("%s|build", c.FuncName(call.Parent()))
 		seen[key]++
 		key = fmt.Sprintf("%s#%d", key, seen[key])
-		r.Check(len(bad) == 0, "R05.build", key, c.Pos(call.Pos()), "the build of a missing summary does not depend on the summarize-on-demand option alone",
-			"a missing summary is only built when summarize-on-demand is set (branch at "+strings.Join(bad, ", ")+"): in eager mode with a pkg-filter the summary of a filtered-out caller stays unbuilt, the traversal cannot return into it and the (source, sink) pairs differ between configurations")
+		r.Check(len(bad) == 0, rule, key, c.Pos(call.Pos()), "the build of a missing summary does not depend on the summarize-on-demand option alone",
+			"a missing summary is only built when summarize-on-demand is set (branch at "+strings.Join(bad, ", ")+"): "+consequence)
 	}
-	if n < 4 {
-		r.Fail("infra.floor", "R05.build", "", fmt.Sprintf("only %d on-demand build call(s) found in the taint traversal", n))
+	if len(aggregate) > 0 && aggregate[0] {
+		var bs []string
+		for b := range allBad {
+			bs = append(bs, b)
+		}
+		sort.Strings(bs)
+		r.Check(len(bs) == 0, rule, pkgRel+"."+fnName+"|builds-not-gated-by-summarize-on-demand", c.Pos(root.Pos()),
+			fmt.Sprintf("none of the %d builds of a missing summary depends on the summarize-on-demand option alone", n),
+			fmt.Sprintf("%d of the %d builds of a missing summary happen only when summarize-on-demand is set (branches at %s): %s", gated, n, strings.Join(bs, ", "), consequence))
+	}
+	if n < floor {
+		r.Fail("infra.floor", rule, "", fmt.Sprintf("only %d on-demand build call(s) found in the traversal", n))
 	}
 }
